@@ -1,13 +1,22 @@
 """C22 - operation pool hands out a valid, de-duplicated set. Spec: PoolOps.tla (statement-level
-relations R0..R6 + transcription of the OperationHashes loop, compared by TLC), PoolOpsTrace.tla.
-Inputs from A: every input sequence of a small instance (PoolOps_enum_*.cfg, -dump), seeded
--simulate walks of a larger one, and TLC's counterexamples on the pinned-tree transcription.
+relations R0..R6 + transcription of the OperationHashes loop, compared by TLC; one caller with atomic
+calls, and several callers whose calls are Begin (snapshot) / End (removal, return) steps interleaved
+with each other and with SetOperation), PoolOpsTrace.tla.
+Inputs from A: every input sequence of small instances (PoolOps_enum_*.cfg, PoolOps_conc_enum_*.cfg,
+-dump), seeded -simulate walks of larger ones, and TLC's counterexamples on the candidate
+transcriptions (pinned-tree loop; removal step that gives up on a record that is already gone).
 Binding B: harness c22 runs them on a real TempPool (real signed operations, same fact re-signed
-by other nodes) and PoolOpsTrace.tla judges every logged result against R0..R6."""
+by other nodes; Begin / End forced through the filter callback, which parks the caller) and
+PoolOpsTrace.tla judges every logged result against R0..R6."""
+import concurrent.futures
+import copy
 import json
 import os
 import re
+import time
 from vlib import core
+
+OBSERVER = {"a": "Call", "l": 100, "rej": []}   # every behaviour ends with one unfiltered call: what is left
 
 
 def opid(o):
@@ -15,7 +24,18 @@ def opid(o):
 
 
 def inputs_of(hist):
-    return [{k: v for k, v in s.items() if k in ("a", "op", "l", "rej")} for s in hist]
+    return [{k: v for k, v in s.items() if k in ("a", "op", "l", "rej", "c")} for s in hist]
+
+
+def subctx(ctx, k):
+    """a view of ctx for one TLC run that goes on at the same time as others: own work directory and counters"""
+    c = copy.copy(ctx)
+    c.work = os.path.join(ctx.work, "p%s" % k)
+    os.makedirs(c.work)
+    c.states = c.transitions = 0
+    c.tlc_cmds = []
+    c._ntlc = 0
+    return c
 
 
 def maximal(hists):
@@ -38,17 +58,83 @@ def statement_state(hist):
     """(added order, banned) before the last event of hist"""
     added, banned = [], set()
     for e in hist[:-1]:
-        if e["a"] == "Set":
+        if e["a"] in ("Set", "SetE"):
             i = opid(e["op"])
             if i not in added:
                 added.append(i)
-        elif e["a"] == "Call":
+        elif e["a"] in ("Call", "CallE"):
             banned |= {opid(o) for o in e["rejected"]}
     return added, banned
 
 
+def intervals(hist):
+    """the calls of a behaviour as [first event index, last event index, caller, rejected ids]
+    (a one-caller Call is an interval of one event; a call still in flight ends at len(hist))"""
+    out, open_ = [], {}
+    for k, e in enumerate(hist):
+        if e["a"] == "Call":
+            out.append([k, k, 0, {opid(o) for o in e["rejected"]}])
+        elif e["a"] == "CallB":
+            open_[e["c"]] = k
+        elif e["a"] == "CallE":
+            out.append([open_.pop(e["c"], k), k, e["c"], {opid(o) for o in e["rejected"]}])
+    for c, b in open_.items():
+        out.append([b, len(hist), c, set()])
+    return out
+
+
+def shape(hist):
+    """how the judged call (last event of hist) relates to the other calls of its behaviour: the suffix of the key"""
+    ev = hist[-1]
+    if ev["a"] != "CallE":
+        # one caller here; but earlier calls of the behaviour may have overlapped each other
+        ivs = intervals(hist[:-1])
+    else:
+        ivs = intervals(hist)
+    mine = ivs[-1] if ev["a"] == "CallE" else [len(hist) - 1, len(hist) - 1, 0, set()]
+    if ev["a"] == "CallE":
+        mine = [iv for iv in ivs if iv[1] == len(hist) - 1 and iv[2] == ev["c"]][0]
+    others = [iv for iv in ivs if iv is not mine]
+
+    def overlap(a, b):
+        return a[0] <= b[1] and b[0] <= a[1]
+    tags = []
+    if any(overlap(mine, o) for o in others):
+        tags.append("call-overlaps-another-call")
+    if any(e["a"] in ("Set", "SetB", "SetE") for e in hist[mine[0]:mine[1]]):
+        tags.append("store-during-call")
+    return tags, mine, others, overlap
+
+
+def classify_r6(hist):
+    """an entry that the filter of a call rejected which had returned before this call started"""
+    ev = hist[-1]
+    tags, mine, others, overlap = shape(hist)
+    ret = {opid(o) for o in ev["ret"]}
+    before = [o for o in others if o[1] < mine[0]]
+    culprits = [o for o in before if o[3] & ret]
+    why = []
+    for cu in culprits:
+        ov = [o for o in others if o is not cu and overlap(cu, o)]
+        if any(o[3] & cu[3] for o in ov):
+            why.append("rejecting-call-overlapped-a-call-that-rejected-a-common-operation")
+        elif ov:
+            why.append("rejecting-call-overlapped-another-call")
+        elif any(e["a"] in ("Set", "SetB", "SetE") for e in hist[cu[0]:cu[1]]):
+            why.append("store-during-rejecting-call")
+    for w in ("rejecting-call-overlapped-a-call-that-rejected-a-common-operation", "rejecting-call-overlapped-another-call",
+              "store-during-rejecting-call"):
+        if w in why:
+            return "R6-filtered-out-again;" + w
+    return ";".join(["R6-filtered-out-again"] + tags)
+
+
 def classify(cls, hist):
     ev = hist[-1]
+    if cls == "R6-filtered-out-again":
+        return classify_r6(hist)
+    if ev["a"] == "CallE" and cls not in ("R0-returns",):
+        return ";".join([cls] + shape(hist)[0])
     if cls in ("R0-returns", "R0-set-returns"):
         msg = ev.get("msg", "")
         m = re.search(r"index out of range \[(\d+)\] with length (\d+)", msg)
